@@ -230,7 +230,20 @@ fn run_c06(t: &mut Tape, _tier: Tier) -> RunOut {
         }
         s
     } else {
-        (0..len).map(|_| gen::SECRET_ALPHABET[t.below(gen::SECRET_ALPHABET.len())] as char).collect()
+        let mut s: String = (0..len).map(|_| gen::SECRET_ALPHABET[t.below(gen::SECRET_ALPHABET.len())] as char).collect();
+        if len > 0 && t.chance(4) {
+            // NUL, whitespace and control characters are ordinary secret bytes, wherever they sit
+            let c = ['\0', ' ', '\n', '\t', '\r', '\u{7f}'][t.below(6)];
+            let mut b: Vec<char> = s.chars().collect();
+            let pos = [0, len - 1, t.below(len)][t.below(3)];
+            b[pos] = c;
+            if t.chance(2) {
+                b[len - 1] = c;
+            }
+            s = b.into_iter().collect();
+            out.probe("secret_with_nul_or_whitespace");
+        }
+        s
     };
     out.probe(&format!("secret_len[{}]", secret.len().min(48)));
     let (y, m, d) = gen_date(t);
@@ -358,7 +371,8 @@ fn sweep_c06(out: &mut RunOut) -> u64 {
 // C09: path normal form
 // ------------------------------------------------------------------------------------------------
 
-const PATH_TOKENS: [&str; 40] = [
+const PATH_TOKENS: [&str; 46] = [
+    "%+f", "%+A", "%-1", "%aé", "%é", "%%41",
     "a", "b", ".", "..", "...", "%2e", "%2E", "%2e%2E", ".%2e", "%2f", "%2F", "", "%", "%4", "%zz", "%G0", "%41", "%7e", "~", "%00", "é", "%C3%A9", "%c3%a9", "a%20b", "*", "!", "$",
     "&", "'", "(", ")", ",", ":", ";", "=", "@", "%25", "%2B", "A", "0",
 ];
@@ -708,7 +722,7 @@ fn run_c10(t: &mut Tape, tier: Tier) -> RunOut {
     // malformed escapes are refused as a malformed query string
     if t.chance(3) {
         let mut q = String::from_utf8_lossy(&spell_pairs(&pairs, t, 0, false)).to_string();
-        q.push_str(["&x=%", "&%4", "&a=%zz", "&%G0=1", "&=%0g"][t.below(5)]);
+        q.push_str(["&x=%", "&%4", "&a=%zz", "&%G0=1", "&=%0g", "&a=%+f", "&%+A=1", "&a=%-1", "&a=%aé", "&%é=1", "&a=%x1"][t.below(11)]);
         out.probe("malformed_query_direct");
         match lib_canonical_query(&q) {
             Ok(Err(k)) if k.contains("MalformedQueryString") => {}
@@ -1048,7 +1062,7 @@ pub fn registry() -> Vec<Profile> {
             id: "C06",
             title: "key derivation",
             run: run_c06,
-            required: &["chain_compared", "too_long_refused", "capacity[0]", "capacity[3]", "capacity[128]", "t_leap_day", "year_below_1000", "secret_len[0]", "secret_len[40]", "secret_len[41]"],
+            required: &["chain_compared", "too_long_refused", "secret_with_nul_or_whitespace", "capacity[0]", "capacity[3]", "capacity[128]", "t_leap_day", "year_below_1000", "secret_len[0]", "secret_len[40]", "secret_len[41]"],
             rule: "key-store node: secrets of every byte length 0..66 (ASCII and multi-byte) against capacities {0,3,4,8,44,64,128}; at the default capacity the node derives through all five cache levels and all six shortcut entry points for dates over years 1-9999 (leap days, year ends) and regions/services incl. empty and non-ASCII, compared with the client's independent HMAC chain; distinct by (secret length, leap year, leap day, region/service lengths). Weakest fit for simulation: the statement is a pure function; the simulator contributes the second party and the calendar only.",
             quick_secs: 12,
             thorough_secs: 90,
